@@ -272,6 +272,7 @@ func c15(p *core.Program, r *core.Report) {
 	}
 	endpointCaseRule(p, r)
 	closestPointsOrthogonalRule(p, r, "closest-points-orthogonal")
+	cancellationRule(p, r, "integer-quantities-exact", 20, []fxTarget{{"xy", "DistanceFromPointToLine"}, {"xy", "PerpendicularDistanceFromPointToLine"}, {"xy", "DistanceFromLineToLine"}, {"xyz", "DistancePointToLine"}, {"xyz", "DistanceLineToLine"}}, 8)
 	pointSegmentFormulaRule(p, r, "point-segment-formula", []pointSegTarget{{"xy", "DistanceFromPointToLine", 2}, {"xy", "PerpendicularDistanceFromPointToLine", 2}, {"xyz", "DistancePointToLine", 3}, {"xy", rdpDistanceName(p), 2}}, 4)
 	const r1 = "zero-length-guards"
 	r.Rule(r1, "the 2D and 3D siblings test the same pairs of parameters for coordinate equality before the main computation: point-segment (lineStart,lineEnd); segment-segment {(line1Start,line1End),(line2Start,line2End)} - closed under exchanging the two segments - and on each guard's true edge they return the point-to-segment distance of a point of the degenerate segment to the other segment", 6)
